@@ -560,7 +560,7 @@ def canon_any(v):
         return repr(type(v))
 
 
-def fragment_read(fmt, frag, construct, failsafe):
+def fragment_read(fmt, frag, construct, failsafe, variant=0, stripped=False):
     import c09_damage as D
     from lxml import etree
     from basyx.aas.adapter.json import AASFromJsonDecoder, StrictAASFromJsonDecoder
@@ -569,9 +569,11 @@ def fragment_read(fmt, frag, construct, failsafe):
         D.HOOK.begin(failsafe, "doc")
     try:
         if fmt == "json":
-            return "ok", json.loads(json.dumps(frag), cls=AASFromJsonDecoder if failsafe else StrictAASFromJsonDecoder)
-        return "ok", read_aas_xml_element(io.BytesIO(etree.tostring(frag)), getattr(XMLConstructables, construct),
-                                          failsafe=failsafe)
+            return "ok", json.loads(json.dumps(frag), cls=D.decoder_class("json", failsafe, stripped, subclass=(variant % 3 == 2)))
+        kw = [{"failsafe": failsafe, "stripped": stripped},
+              {"failsafe": not failsafe, "stripped": not stripped, "decoder": D.decoder_class("xml", failsafe, stripped)},
+              {"failsafe": not failsafe, "decoder": D.decoder_class("xml", failsafe, stripped, subclass=True)}][variant % 3]
+        return "ok", read_aas_xml_element(io.BytesIO(etree.tostring(frag)), getattr(XMLConstructables, construct), **kw)
     except RecursionError:
         raise
     except Exception as e:  # noqa
@@ -631,8 +633,10 @@ def fragment_campaign(chk, rng, sources, budget, seen_fail):
                 continue
         chk.seen(("fragment", fmt, name, path, op, variant), nontrivial=True)
         chk.count(f"fragment:{fmt}:{op}")
-        k1, r1 = fragment_read(fmt, f2, construct, True)
-        k2, r2 = fragment_read(fmt, f2, construct, False)
+        rv, stp = variant % 3, (variant // 3) % 5 == 0
+        chk.count(f"fragment-reader-variant:{rv}{'/stripped' if stp else ''}")
+        k1, r1 = fragment_read(fmt, f2, construct, True, rv, stp)
+        k2, r2 = fragment_read(fmt, f2, construct, False, rv, stp)
         fail = None
         if k1 != "ok":
             fail = ("fragment-failsafe-raises:" + type(r1).__name__,
@@ -652,6 +656,7 @@ def fragment_campaign(chk, rng, sources, budget, seen_fail):
                 text = json.dumps(f2) if fmt == "json" else etree.tostring(f2).decode()
                 seen_fail[sig] = {"n": 1, "what": fail[1] + f" [operator {op}]",
                                   "replay": {"kind": "fragment", "fmt": fmt, "construct": construct, "data": text,
+                                             "variant": rv, "stripped": stp,
                                              "how": "tools/c09.py replay(): fragment_read failsafe/strict"}}
 
 
@@ -685,7 +690,7 @@ def run(chk):
     from py2coq import readerflow, TranslationError
     rng = chk.rng
     quick = chk.tier == "quick"
-    n_gen, budget, n_walk, n_bytes, n_frag = (12, 10000, 400, 400, 4000) if quick else (60, 150000, 4000, 5000, 40000)
+    n_gen, budget, n_walk, n_bytes, n_frag = (12, 7000, 400, 400, 3500) if quick else (60, 120000, 4000, 5000, 40000)
     # ---- tie T
     trans = None
     try:
@@ -709,7 +714,7 @@ def run(chk):
     chk.notes += notes
     chk.cov["base_documents"] = {"read_by_all_four_readers": len(sources), "oracle_failures_undamaged": len(prefails),
                                  "skipped_with_note": notes}
-    specs, total = C.enumerate_cases(rng, sources, budget)
+    specs, total = C.enumerate_cases(rng, sources, budget, forced_cap=(2000 if quick else 12000))
     chk.cov["damage_cases_enumerated"] = total
     chk.cov["damage_cases_run"] = len(specs)
 
@@ -741,6 +746,10 @@ def run(chk):
         chk.seen((spec[0], spec[1], spec[3], op, spec[5]), nontrivial=True)
         chk.count(f"{fmt}:{op}")
         chk.count(f"outcome:{fmt}:failsafe={r['obs'][0]}:strict={r['obs'][1]}")
+        st = r["style"]
+        chk.count(f"reader-variant:{st['kind']}{'/stripped' if st['stripped'] else ''}{'/into' if st['into'] else ''}")
+        if (r["h"] // 97) % 10 == 0:
+            chk.count(f"logging-config:{1 + (r['h'] // 7) % 6}")
         if r["fail"]:
             kind, text = r["fail"]
             sig = f"C09:{fmt}:{kind}"
@@ -751,23 +760,12 @@ def run(chk):
             rr = C.run_spec(sources, small) or r
             if not rr["fail"]:
                 rr, small = r, spec
-            data = rr["data"]
             src = sources[small[0]]
-            ids = [small[1][2]] + [w[2] for w in small[2]]
-            damaged = {small[1][2]} | ({small[6]} if small[4] == "dupid" and len(small[3]) == 3 else set())
-            if small[4] == "harmless":
-                damaged = set()
-            if D.damages_all(small[4], small[5]):
-                damaged = set(ids)
+            st = rr.get("style") or {}
             seen_fail[sig] = {"n": 1, "what": f"{rr['fail'][1]} [operator {small[4]} at {rr['ctx'][0]}.{rr['ctx'][1]}, "
-                                             f"document from {src['name']}]",
-                              "replay": {"kind": "damage", "fmt": fmt,
-                                         "data": data if isinstance(data, str) else data.decode("utf-8", "replace"),
-                                         "all_ids": ids, "damaged_ids": sorted(x for x in damaged if x is not None),
-                                         "base_canon": {i: src["base"][i] for i in ids if i in src["base"]},
-                                         "operator": small[4], "path": [str(x) for x in small[3]],
-                                         "harmless": small[4] == "harmless",
-                                         "how": "tools/c09.py replay(): c09_damage.oracle on `data`"}}
+                                             f"document from {src['name']}, reader variant {st.get('kind')}"
+                                             f"{'/stripped' if st.get('stripped') else ''}{'/into' if st.get('into') else ''}]",
+                              "replay": rr["replay"]}
     # ---- non-AAS and garbled input
     hook = EV.Hook().install()
     D.HOOK = hook
@@ -842,7 +840,7 @@ def run(chk):
         level="proof",
         rule="valid documents = SDK examples + seeded aasgen stores written by the SDK writers; each case damages one node "
              "(every member / list item / element below a chosen identifiable) with one of 13 damage operators (the 13th: re-binding the XML namespace prefix / default namespace on the root or one element) or the harmless operator (XML comment / processing instruction / white space at or inside the node, JSON white space / member order / escapes: both readers must return the undamaged result) and reads a document "
-             "holding the victim and up to two untouched witnesses with all four readers; all node x operator pairs are "
+             "holding the victim and up to two untouched witnesses with the failsafe and the strict reader of its format, selected through a seeded reader variant (failsafe flag / explicit shipped decoder class / decoder class with contradicting flags / trivial subclass, x stripped, x file/file_into); a fifth of the cases is repeated under another logging configuration; a damaged identifiable must come back unchanged, not at all, or as read from a valid document without the damaged node or a node containing it; all node x operator pairs are "
              "enumerated and a seeded sample of the budget is run; plus fixed and random well-formed non-AAS documents, "
              "truncated/garbled bytes, and random multi-item documents for the walk model; non-trivial = every damage "
              "case, walk cases with >= 2 items; distinct by (document, path, operator, variant)")
@@ -853,10 +851,9 @@ def replay(path):
     r = json.load(open(path))
     rp = r.get("replay") or {}
     if rp.get("kind") == "damage":
-        data = rp["data"] if rp["fmt"] == "json" else rp["data"].encode()
-        obs, fail = D.oracle(rp["fmt"], data, rp["base_canon"], set(rp["damaged_ids"]), rp["all_ids"],
-                             harmless=rp.get("harmless", False))
-        print("readers (failsafe, strict):", obs)
+        import c09_campaign as C
+        obs, fail = C.replay_case(rp)
+        print("readers (failsafe, strict):", obs, "variant:", rp.get("style"))
         print("oracle:", fail)
         return 1 if fail else 0
     if rp.get("kind") == "bytes":
@@ -867,8 +864,8 @@ def replay(path):
     if rp.get("kind") == "fragment":
         from lxml import etree
         frag = json.loads(rp["data"]) if rp["fmt"] == "json" else etree.fromstring(rp["data"].encode())
-        k1, r1 = fragment_read(rp["fmt"], frag, rp["construct"], True)
-        k2, r2 = fragment_read(rp["fmt"], frag, rp["construct"], False)
+        k1, r1 = fragment_read(rp["fmt"], frag, rp["construct"], True, rp.get("variant", 0), rp.get("stripped", False))
+        k2, r2 = fragment_read(rp["fmt"], frag, rp["construct"], False, rp.get("variant", 0), rp.get("stripped", False))
         print("failsafe:", k1, type(r1).__name__, "strict:", k2, type(r2).__name__)
         import c09_damage as D
         bad = k1 != "ok" or (k2 != "ok" and not D.documented(r2)) or (k2 == "ok" and canon_any(r1) != canon_any(r2))
